@@ -142,6 +142,14 @@ func genPair(r *PRNG, tier, prop string, o pairOpts) *Scenario {
 				}
 				ops = append(ops, op)
 				if op.End == "implicit" {
+					if r.Chance(1, 3) {
+						// settings changed while the writer is still open govern subsequent messages only
+						if r.Bool() {
+							ops = append(ops, WOp{Kind: "ewc", B: r.Bool()})
+						} else {
+							ops = append(ops, WOp{Kind: "lvl", Lvl: r.Range(-2, 9)})
+						}
+					}
 					// an implicitly closed writer must be followed by a message op that closes it
 					nx := genWriteOp(r, effW(w), false, 0)
 					if nx.Kind == "prep" {
